@@ -50,6 +50,7 @@ type Sheet struct {
 	BareAt     bool     `json:",omitempty"` // text: lines without annotations still end with '@' (as in sample/wolf_diet_ngsfilter.txt)
 	E          int      // -e / --allowed-mismatches given to the command (-1: option absent)
 	WithIndels bool     `json:",omitempty"` // --with-indels
+	Shape      *Shape   `json:",omitempty"` // byte-level layout of the file (shape_test.go); nil: the plain rendering below
 }
 
 // Read is one input sequence (lower case acgt); Qual (optional) holds one phred score per nucleotide.
@@ -85,8 +86,17 @@ func tagField(s Sample, oneWord bool) string {
 	return f + ":" + r
 }
 
-// Text renders the sheet in the format the case describes.
+// Text renders the sheet in the format the case describes: the plain rendering,
+// or the byte-level layout described by sh.Shape (same declarations, other bytes).
 func (sh Sheet) Text() string {
+	if sh.Shape != nil {
+		return sh.shapedText()
+	}
+	return sh.plainText()
+}
+
+// plainText: one line per entry, every line ended by a line feed.
+func (sh Sheet) plainText() string {
 	var b strings.Builder
 	if sh.Comments {
 		b.WriteString("# generated sample sheet\n\n")
